@@ -18,7 +18,14 @@ class VLoop(base_events.BaseEventLoop):
         super().__init__()
         self._now = 0.0
         self.exc_log = []
+        self.tasks = []  # every task created on this loop (asyncio.all_tasks scans a process-wide set)
+        self.set_task_factory(self._factory)
         self.set_exception_handler(lambda loop, ctx: self.exc_log.append(ctx))
+
+    def _factory(self, loop, coro, **kw):
+        t = asyncio.Task(coro, loop=loop, **kw)
+        self.tasks.append(t)
+        return t
 
     def time(self):
         return self._now
@@ -105,7 +112,7 @@ class Session:
 
     def __exit__(self, *a):
         events._set_running_loop(None)
-        for t in asyncio.all_tasks(self.loop):
+        for t in self.loop.tasks:
             t._log_destroy_pending = False
         try:
             self.loop._ready.clear()
@@ -190,7 +197,7 @@ class Session:
 
     def quiescence(self):
         """Observations once the run stopped: pending tasks, live timers, unretrieved-exception log."""
-        pending = [t for t in asyncio.all_tasks(self.loop) if not t.done()]
+        pending = [t for t in self.loop.tasks if not t.done()]
         timers = len(self.loop.live_timers())
         gc.collect(1)
         log = [str(c.get("message")) for c in self.loop.exc_log]
